@@ -59,6 +59,7 @@ func c03(c *Ctx) {
 	r.Declines("the closed-loop invariant used <= max over histories (needs C01's arithmetic) and completeness of rejections")
 
 	quotaPairing(c)
+	quotaHandover(c)
 	c03move(c)
 	if fn := c.Fn(quotaPluginPkg, "Plugin", "PreFilter"); fn != nil {
 		c03prefilter(c, fn)
